@@ -33,6 +33,11 @@ VerdictPos ==
       IN Viol("WITNESS", Le(Abs(Sub(Mul(Ev.ws, Ev.ws), sm2)), Mul(Dec(1, 9), sm2)))
     \cup Viol("MOON_ILLUMINATED_GEOMETRY",     \* |k - (1 + cos i)/2| <= 0.01  <=>  |cos_k - cos i| <= 0.02
               Le(Abs(Sub(Mul(Mul(cosi, Ev.ws), Ev.dist), num)), Mul(Dec(2, 2), Mul(Ev.ws, Ev.dist)))))
+\* motion in longitude since the previous position (steps of a fraction of a day up to one day): 11.5 .. 15.6 deg/day
+\cup (IF st.k = "pos" /\ Gt(Ev.t, st.t) /\ Le(Sub(Ev.t, st.t), Add(One, Dec(1, 6))) /\ ~Within(Sub(Ev.t, st.t), One, Dec(1, 6)) THEN
+        LET adv == Mod(Sub(Ev.lon, st.lon), 360)  dt == Sub(Ev.t, st.t) IN
+           Viol("MOON_MOTION_SHORT_STEP", Ge(adv, Sub(Mul(Dec(115, 1), dt), Dec(1, 6))) /\ Le(adv, Add(Mul(Dec(156, 1), dt), Dec(1, 6))))
+      ELSE {})
 \cup (IF st.k = "pos" /\ Within(Sub(Ev.t, st.t), One, Dec(1, 6)) THEN
         LET adv == Mod(Sub(Ev.lon, st.lon), 360) IN
            Viol("MOON_DAILY_MOTION", Ge(adv, Dec(115, 1)) /\ Le(adv, Dec(156, 1)))
